@@ -27,7 +27,14 @@ RULE = ('function specs kind in {lin, aff, cubic(flat root), sat(urating), kink,
         '(method, parameters, lanes) and non-trivial when it has at least one lane that needs more than one '
         'iteration. Arithmetic-only batches must agree BIT FOR BIT with the Lean Float run (result, iteration '
         'count, and for bisect the final xmin/xmax); batches containing expm lanes agree within a tolerance '
-        'sized from the property (bisect 1e-8, chandrupatla 1e-9 of the width) plus the flat zone 4.5e-16/slope')
+        'sized from the property (bisect 1e-8, chandrupatla 1e-9 of the width) plus the flat zone 4.5e-16/slope. '
+        'Bracket representation stream (tie and search, quick tier too): the same numbers handed over as float64 / '
+        'float32 / int64 / int32 arrays (integer-valued ends, fractional root or root at either end), non-integer '
+        'float32 brackets, and scalar calls with Python int, Python float, np.float64, np.float32, np.int64; '
+        'chandrupatla with integer-valued ends must be bit-identical to the model run on the float64 image, '
+        'non-integer float32 brackets within tolerance; a search failure that disappears when the same brackets '
+        'are float64 gets the class <method>:integer-bracket-dtype-truncates / '
+        '<method>:float32-bracket-dtype-tolerance')
 PARTIAL = ['chandrupatla_converges_partial: termination of every lane within the iteration cap is not a theorem '
            '(the IQI step has no proved rate); proved instead: success, containment, sign bracket, smaller-|f| end, '
            'exact zero when fm == 0, a root within |a-b| of the result. The cap is exercised by the tie; the search '
@@ -122,6 +129,8 @@ class ScalarFn:
 
     def __call__(self, x):
         self.calls += 1
+        if not isinstance(x, float):     # int / np.int64 / np.float32 arguments: the function itself is a double function
+            x = np.float64(x)
         with np.errstate(all='ignore'):
             r = fam_eval(self.k, x, self.p, self.q)
         if isinstance(r, np.ndarray):   # np.where on a scalar gives a 0-d array
@@ -133,8 +142,27 @@ def lane_words(l):
     return f'{l[0]} {vc.f2h(l[1])} {vc.f2h(l[2])} {vc.f2h(l[3])} {vc.f2h(l[4])}'
 
 
-def arrays(lanes):
-    return (np.array([l[3] for l in lanes], dtype=float), np.array([l[4] for l in lanes], dtype=float))
+DTYPES = {'float64': np.float64, 'float32': np.float32, 'int64': np.int64, 'int32': np.int32}
+SCALAR_TYPES = {'pyfloat': float, 'pyint': int, 'np.float64': np.float64, 'np.float32': np.float32,
+                'np.int64': np.int64}
+
+
+def arrays(lanes, dtype=None):
+    """the bracket arrays handed to the real code; `dtype` (a key of DTYPES) is the caller's representation
+    of the SAME numbers (the generator makes the ends exactly representable in it)."""
+    lo = np.array([l[3] for l in lanes], dtype=float)
+    hi = np.array([l[4] for l in lanes], dtype=float)
+    if dtype not in (None, 'float64'):
+        lo, hi = lo.astype(DTYPES[dtype]), hi.astype(DTYPES[dtype])
+    return lo, hi
+
+
+STYPE_DTYPE = {'pyfloat': 'float64', 'pyint': 'int64', 'np.float64': 'float64', 'np.float32': 'float32',
+               'np.int64': 'int64'}
+
+
+def f64(a):
+    return np.asarray(a, dtype=float)
 
 
 # ------------------------------------------------------------------------------ generators
@@ -175,6 +203,75 @@ def gen_lane(rng, kinds, hard=None):
 
 
 LANE_COUNTS_QUICK = [1, 1, 1, 2, 2, 3, 5, 8, 17, 40, 100]
+
+
+def _valid(kind, p, q, lo, hi):
+    with np.errstate(all='ignore'):
+        flo, fhi = float(fam_eval(kind, lo, p, q)), float(fam_eval(kind, hi, p, q))
+    return flo <= 0.0 <= fhi and lo < hi and math.isfinite(flo)
+
+
+def gen_lane_int(rng, kinds):
+    """integer-valued bracket ends (exactly representable as float64, float32, int64, int32) with a fractional
+    root strictly inside, or the root at either end."""
+    for _ in range(50):
+        kind = rng.choice(kinds)
+        lo = rng.randint(-40, 40)
+        hi = lo + rng.randint(1, 60)
+        where = rng.random()
+        if where < 0.15:
+            r, pos = float(lo), 'root-at-lo'
+        elif where < 0.30:
+            r, pos = float(hi), 'root-at-hi'
+        else:
+            r, pos = lo + rng.uniform(0.02, 0.98) * (hi - lo), 'interior'
+        p = logu(rng, -6, 6)
+        q = p * r if kind == 'aff' else r
+        if _valid(kind, p, q, float(lo), float(hi)):
+            return (kind, p, q, float(lo), float(hi)), pos
+    return ('lin', 1.0, 0.3, 0.0, 1.0), 'interior'
+
+
+def gen_lane_f32(rng, kinds):
+    """non-integer bracket ends that are exactly float32 numbers; root inside or exactly at an end."""
+    for _ in range(50):
+        kind = rng.choice(kinds)
+        r = 0.0 if rng.random() < 0.1 else logu(rng, -3, 3) * rng.choice([-1, 1])
+        w = max(1.0, abs(r)) * logu(rng, -3, 2)
+        where = rng.random()
+        if where < 0.15:
+            lo = float(np.float32(r))
+            r, hi, pos = lo, float(np.float32(lo + w)), 'root-at-lo'
+        elif where < 0.30:
+            hi = float(np.float32(r))
+            r, lo, pos = hi, float(np.float32(hi - w)), 'root-at-hi'
+        else:
+            u = rng.uniform(0.02, 0.98)
+            lo = float(np.float32(r - u * w))
+            hi = float(np.float32(lo + w))
+            pos = 'interior'
+        p = logu(rng, -6, 6)
+        q = p * r if kind == 'aff' else r
+        if _valid(kind, p, q, lo, hi):
+            return (kind, p, q, lo, hi), pos
+    return ('lin', 1.0, 0.30000001192092896, 0.10000000149011612, 0.8999999761581421), 'interior'
+
+
+DTYPE_STREAM = ['float64', 'float32', 'int64', 'int32', 'float32-frac']
+
+
+def gen_dtype_batch(ctx, rng, exact, n, which=None):
+    """(lanes, dtype key, tag): the same numbers handed over in another representation."""
+    kinds = EXACT_KINDS if exact else EXACT_KINDS + LIBM_KINDS * 3
+    tag = which or rng.choice(DTYPE_STREAM)
+    gen = gen_lane_f32 if tag == 'float32-frac' else gen_lane_int
+    lanes = []
+    for _ in range(n):
+        lane, pos = gen(rng, kinds)
+        ctx.count(f'dtype-lane:{pos}')
+        lanes.append(lane)
+    ctx.count(f'dtype-batch:{tag}')
+    return lanes, ('float32' if tag == 'float32-frac' else tag), tag
 
 
 def gen_batch(ctx, rng, exact, n=None):
@@ -230,10 +327,10 @@ def same_bits(a, b):
     return vc.f2h(a) == vc.f2h(b) or (a != a and b != b)
 
 
-def real_bisect(lanes, tol, maxiter, record=False):
+def real_bisect(lanes, tol, maxiter, record=False, dtype=None):
     from copulas.optimize import bisect
     f = VecFn(lanes, record)
-    xa, xb = arrays(lanes)
+    xa, xb = arrays(lanes, dtype)
     orig = (xa.copy(), xb.copy())
     kw = {}
     if tol is not None:
@@ -265,10 +362,10 @@ def lean_bisect(lean, lanes, tol, maxiter):
     return {'st': 'bad', 'text': r[:200]}
 
 
-def real_chand(lanes, eps_m, eps_a, maxiter, record=False):
+def real_chand(lanes, eps_m, eps_a, maxiter, record=False, dtype=None):
     from copulas.optimize import chandrupatla
     f = VecFn(lanes, record)
-    xa, xb = arrays(lanes)
+    xa, xb = arrays(lanes, dtype)
     orig = (xa.copy(), xb.copy())
     kw = {}
     if eps_m is not None:
@@ -286,7 +383,7 @@ def real_chand(lanes, eps_m, eps_a, maxiter, record=False):
         return {'st': 'err', 'kind': vc.exc_kind(e), 'f': f}
 
 
-def real_chand_scalar(lane, eps_m, eps_a, maxiter):
+def real_chand_scalar(lane, eps_m, eps_a, maxiter, stype='pyfloat'):
     from copulas.optimize import chandrupatla
     f = ScalarFn(lane)
     kw = {}
@@ -298,7 +395,8 @@ def real_chand_scalar(lane, eps_m, eps_a, maxiter):
         kw['maxiter'] = maxiter
     try:
         with np.errstate(all='ignore'):
-            res = chandrupatla(f, float(lane[3]), float(lane[4]), **kw)
+            conv = SCALAR_TYPES[stype]
+            res = chandrupatla(f, conv(lane[3]), conv(lane[4]), **kw)
         return {'st': 'ok', 'res': float(res), 'iters': f.calls - 2, 'shape': np.shape(res)}
     except Exception as e:  # noqa
         return {'st': 'err', 'kind': vc.exc_kind(e)}
@@ -347,7 +445,8 @@ def first_diff(xs, ys, lanes, tols=None):
 def run(ctx, lean):
     names = ['corr:spec-language', 'corr:bisect.exact', 'corr:bisect.libm', 'corr:bisect.caller-arrays',
              'corr:bisect.rejects', 'corr:chandrupatla.exact', 'corr:chandrupatla.libm',
-             'corr:chandrupatla.rejects', 'corr:chandrupatla.scalar', 'corr:kde.percent_point']
+             'corr:chandrupatla.rejects', 'corr:chandrupatla.scalar', 'corr:chandrupatla.dtype',
+             'corr:kde.percent_point']
     if lean is None:
         for n in names[:-1]:
             ctx.ob(n, False, 'tie', 'driver unavailable')
@@ -356,6 +455,7 @@ def run(ctx, lean):
         tie_bisect(ctx, lean)
         tie_chand(ctx, lean)
         tie_scalar(ctx, lean)
+        tie_dtype(ctx, lean)
         tie_rejects(ctx, lean)
     tie_kde(ctx)
 
@@ -533,6 +633,40 @@ def tie_chand(ctx, lean):
     ctx.ob('corr:chandrupatla.libm', bad['libm'] is None, 'tie', bad['libm'] or 'ok')
 
 
+def tie_dtype(ctx, lean):
+    """brackets handed over as float32 / int64 / int32 arrays.  chandrupatla: with integer-valued ends every
+    intermediate value is exact in the narrower type and the code is in float64 from the second body on, so the
+    result must be BIT-identical to the model run on the float64 image of the brackets; non-integer float32
+    brackets (first body in float32) agree within tolerance.  bisect: the model is the float64 algorithm; whether
+    the code equals it for non-float64 brackets is only COUNTED here (it does not as found: midpoints are stored
+    into copies that keep the caller's dtype) - the search oracle reports that under its own classes."""
+    rng = ctx.rng('dtype')
+    bad = None
+    for j in range(20 * ctx.scale):
+        exact = rng.random() < 0.7
+        n = 1000 if j == 0 else rng.choice(LANE_COUNTS_QUICK)
+        lanes, dtype, tag = gen_dtype_batch(ctx, rng, exact, n, DTYPE_STREAM[j % len(DTYPE_STREAM)])
+        bitwise = exact and tag != 'float32-frac'
+        maxiter = rng.choice([None, None, None, 1, 3, 12])
+        R = real_chand(lanes, None, None, maxiter, dtype=dtype)
+        L = lean_chand(lean, lanes, None, None, maxiter)
+        ctx.case(('chand-dtype', tag, maxiter, tuple(lanes)), nontrivial=(R.get('iters', 0) > 1))
+        d = cmp_chand(None, lanes, R, L, bitwise, None, None, maxiter)
+        ctx.count(f'chand:dtype:{tag}:' + ('bit-identical' if R['st'] == 'ok' and L['st'] == 'ok' and
+                                            first_diff(R['res'], L['res'], lanes) is None else
+                                            'within-tolerance' if d is None else 'DIFFERS'))
+        if d and bad is None:
+            bad = shrink(lanes, d, lambda ls: cmp_chand(None, ls, real_chand(ls, None, None, maxiter, dtype=dtype),
+                                                        lean_chand(lean, ls, None, None, maxiter), bitwise, None,
+                                                        None, maxiter), {'dtype': tag, 'maxiter': maxiter})
+        if tag != 'float64' and n <= 100:
+            Rb = real_bisect(lanes, None, None, dtype=dtype)
+            Lb = lean_bisect(lean, lanes, None, None)
+            same = Rb['st'] == Lb['st'] == 'ok' and first_diff(Rb['res'], Lb['res'], lanes) is None
+            ctx.count(f'bisect:dtype:{tag}:' + ('equals-float64-model' if same else 'differs-from-float64-model(counted only)'))
+    ctx.ob('corr:chandrupatla.dtype', bad is None, 'tie', bad or 'ok')
+
+
 def chand_tols(lanes, eps_m, eps_a, maxiter, iters):
     """both sides return an end of a sign bracket; after the loop exits by termination every lane's
     previous bracket is < 2*tol wide (or f is exactly 0 there); when the cap stops the loop the bracket can
@@ -582,10 +716,16 @@ def tie_scalar(ctx, lean):
     bad = None
     for _ in range(40 * ctx.scale):
         exact = rng.random() < 0.7
-        lane, pos = gen_lane(rng, EXACT_KINDS if exact else LIBM_KINDS, rng.choice([True, False, None]))
+        if rng.random() < 0.5:
+            lane, pos = gen_lane(rng, EXACT_KINDS if exact else LIBM_KINDS, rng.choice([True, False, None]))
+            stype = rng.choice(['pyfloat', 'np.float64'])
+        else:       # integer-valued ends: every scalar representation of the bracket is exact
+            lane, pos = gen_lane_int(rng, EXACT_KINDS if exact else LIBM_KINDS)
+            stype = rng.choice(sorted(SCALAR_TYPES))
+        ctx.count(f'scalar:type:{stype}')
         eps_m, eps_a, maxiter = rng.choice(CHAND_PARAMS)
-        S = real_chand_scalar(lane, eps_m, eps_a, maxiter)
-        V = real_chand([lane], eps_m, eps_a, maxiter)
+        S = real_chand_scalar(lane, eps_m, eps_a, maxiter, stype)
+        V = real_chand([lane], eps_m, eps_a, maxiter, dtype=STYPE_DTYPE[stype])
         L = lean_chand(lean, [lane], eps_m, eps_a, maxiter, scalar=True)
         ctx.case(('chands', eps_m, eps_a, maxiter, lane), nontrivial=(S.get('iters', 0) > 1))
         d = None
@@ -609,7 +749,7 @@ def tie_scalar(ctx, lean):
             elif not abs(S['res'] - L['res'][0]) <= t:
                 d = {'what': 'scalar vs model scalar branch', 'scalar': S['res'], 'model': L['res'][0], 'tol': t}
         if d and bad is None:
-            bad = dict(d, lane=lane, eps_m=eps_m, eps_a=eps_a, maxiter=maxiter)
+            bad = dict(d, lane=lane, eps_m=eps_m, eps_a=eps_a, maxiter=maxiter, scalar_type=stype)
     ctx.ob('corr:chandrupatla.scalar', bad is None, 'tie', bad or 'ok')
 
 
@@ -708,13 +848,14 @@ def oracle_case(method, lanes, params):
     n = len(lanes)
     if method == 'bisect':
         tol, maxiter = params.get('tol'), params.get('maxiter')
-        R = real_bisect(lanes, tol, maxiter, record=True)
+        R = real_bisect(lanes, tol, maxiter, record=True, dtype=params.get('dtype'))
     else:
-        R = real_chand(lanes, params.get('eps_m'), params.get('eps_a'), params.get('maxiter'), record=True)
+        R = real_chand(lanes, params.get('eps_m'), params.get('eps_a'), params.get('maxiter'), record=True,
+                       dtype=params.get('dtype'))
     if R['st'] != 'ok':
         return [(f'{method}:valid-bracket-rejected', R.get('kind'), 'a valid bracket is solved')], R
     res = R['res']
-    lo, hi = R['orig']
+    lo, hi = f64(R['orig'][0]), f64(R['orig'][1])
     # containment of the result and of every evaluation point
     inside = (res >= lo) & (res <= hi)
     if not inside.all():
@@ -758,8 +899,8 @@ def oracle_lanes(method, lanes, params, R, rng, budget):
 
     def call(ls):
         if method == 'bisect':
-            return real_bisect(ls, params.get('tol'), params.get('maxiter'))
-        return real_chand(ls, params.get('eps_m'), params.get('eps_a'), params.get('maxiter'))
+            return real_bisect(ls, params.get('tol'), params.get('maxiter'), dtype=params.get('dtype'))
+        return real_chand(ls, params.get('eps_m'), params.get('eps_a'), params.get('maxiter'), dtype=params.get('dtype'))
     solos = {i: call([lanes[i]]) for i in idx}
     for i in idx:
         S = solos[i]
@@ -818,6 +959,67 @@ def oracle_invalid(method, lanes, how):
               'invalid_lanes': [lanes[i] for i in invalid[:3]]}, 'an invalid bracket raises an error')]
 
 
+PRECISION_CLASSES = ('not-within-tolerance', 'solo-vs-batch', 'stopping-time', 'lane-independence')
+
+
+def oracle_dtype(method, lanes, params, rng, budget):
+    """the oracle on brackets handed over in another dtype (`params['dtype']`).  A failure that disappears when
+    the SAME numbers are handed over as float64 is attributed to the bracket dtype and gets the dedicated class
+    `<method>:integer-bracket-dtype-truncates` / `<method>:float32-bracket-dtype-tolerance` (loss of precision:
+    closeness / solo-vs-batch / stopping time) or `<orig>:dtype=<dtype>` (anything else); a failure that persists
+    with float64 brackets keeps its ordinary class."""
+    fails, R = oracle_case(method, lanes, params)
+    if not fails:
+        fails = oracle_lanes(method, lanes, params, R, rng, budget)
+    dtype = params.get('dtype')
+    if not fails or dtype in (None, 'float64'):
+        return fails, R
+    p64 = {k: v for k, v in params.items() if k != 'dtype'}
+    f64fails, R64 = oracle_case(method, lanes, p64)
+    if not f64fails:
+        f64fails = oracle_lanes(method, lanes, p64, R64, rng, budget)
+    if f64fails:
+        return fails, R
+    out = []
+    for cls, obs, req in fails:
+        core = cls.split(':')[1] if ':' in cls else cls
+        if core in PRECISION_CLASSES:
+            new = (f'{method}:integer-bracket-dtype-truncates' if dtype.startswith('int')
+                   else f'{method}:float32-bracket-dtype-tolerance')
+        else:
+            new = f'{cls}:dtype={dtype}'
+        o = dict(obs) if isinstance(obs, dict) else {'observed': obs}
+        o.update({'bracket_dtype': dtype, 'oracle_class': cls, 'with_float64_brackets': 'passes'})
+        out.append((new, o, req + f' (brackets given as {dtype}; the same brackets as float64 pass)'))
+    return out, R
+
+
+def oracle_scalar(lane, stype):
+    """scalar chandrupatla input in the representation `stype`: a scalar comes back, inside the bracket, within
+    tolerance of the root (or an exact zero), and equal (within tolerance) to the one-element vector call."""
+    fails = []
+    S = real_chand_scalar(lane, None, None, None, stype)
+    V = real_chand([lane], None, None, None, dtype=STYPE_DTYPE[stype])
+    t = prop_tol('chandrupatla', lane)
+    if S['st'] != 'ok':
+        return [(f'chandrupatla:scalar:{stype}:valid-bracket-rejected', S.get('kind'), 'a valid bracket is solved')]
+    x = S['res']
+    fx = float(ScalarFn(lane)(x))
+    if S['shape'] != ():
+        fails.append((f'chandrupatla:scalar:{stype}:not-a-scalar', {'shape': list(S['shape'])}, 'scalar in, scalar out'))
+    if not (lane[3] <= x <= lane[4]):
+        fails.append((f'chandrupatla:scalar:{stype}:result-outside-bracket', {'lane': lane, 'x': x}, 'xmin <= x <= xmax'))
+    if lane[0] in ORACLE_KINDS and not (abs(x - lane_root(lane)) <= t or fx == 0.0):
+        fails.append((f'chandrupatla:scalar:{stype}:not-within-tolerance',
+                      {'lane': lane, 'x': x, 'root': lane_root(lane), 'f(x)': fx, 'scalar_type': stype},
+                      f'|x - root| <= {t:g} or f(x) == 0'))
+    if V['st'] != 'ok' or not abs(x - float(V['res'][0])) <= 2 * t:
+        fails.append((f'chandrupatla:scalar:{stype}:scalar-vs-vector',
+                      {'lane': lane, 'scalar': x, 'vector': V.get('res', [None])[0] if V['st'] == 'ok' else V['st']},
+                      'scalar input behaves like a one-element vector'))
+    return fails
+
+
 def search(ctx, deep):
     rng = ctx.rng('search')
     nb = 40 * (10 if deep else 1)
@@ -861,19 +1063,32 @@ def search(ctx, deep):
             report(method, lanes, params, fails)
         # scalar == one-element vector
         lane = lanes[rng.randrange(n)]
-        S, V = real_chand_scalar(lane, None, None, None), real_chand([lane], None, None, None)
+        stype = rng.choice(['pyfloat', 'np.float64'])
         checked += 1
-        t = 2 * prop_tol('chandrupatla', lane)
-        if not (S['st'] == V['st'] == 'ok' and S['shape'] == () and
-                (abs(S['res'] - float(V['res'][0])) <= t)):
-            report('chandrupatla', [lane], {'scalar': True},
-                   [('chandrupatla:scalar-vs-vector', {'scalar': S.get('res'), 'vector': V.get('res')},
-                     'scalar input behaves like a one-element vector')])
+        report('chandrupatla', [lane], {'scalar': stype}, oracle_scalar(lane, stype))
         # malformed
         bl, how, i = corrupt(rng, lanes if n <= 40 else lanes[:40])
         for method in ('bisect', 'chandrupatla'):
             checked += 1
             report(method, bl, {}, oracle_invalid(method, bl, how), {'invalid': how})
+    # brackets in other representations: float32 / int64 / int32 arrays, scalars of every type
+    drng = ctx.rng('search-dtype')
+    for b in range(len(DTYPE_STREAM) * 4 * (10 if deep else 1)):
+        exact = drng.random() < 0.6
+        n = 1000 if (b == 7 or (deep and b % 41 == 0)) else drng.choice(LANE_COUNTS_QUICK)
+        lanes, dtype, tag = gen_dtype_batch(ctx, drng, exact, n, DTYPE_STREAM[b % len(DTYPE_STREAM)])
+        for method in ('bisect', 'chandrupatla'):
+            params = {'dtype': dtype}
+            fails, R = oracle_dtype(method, lanes, params, drng, 12 if not deep else 40)
+            checked += 1
+            ctx.count(f'search:dtype:{method}:{tag}:' + ('ok' if not fails else 'FAILS'))
+            report(method, lanes, params, fails)
+    for b in range(15 * (10 if deep else 1)):
+        stype = sorted(SCALAR_TYPES)[b % len(SCALAR_TYPES)]
+        lane, pos = gen_lane_int(drng, ORACLE_KINDS)
+        checked += 1
+        ctx.count(f'search:scalar:{stype}')
+        report('chandrupatla', [lane], {'scalar': stype}, oracle_scalar(lane, stype))
     # GaussianKDE.percent_point
     nprng = ctx.nprng('search-kde')
     for rep in range(3 if deep else 1):
@@ -904,11 +1119,8 @@ def replay(ctx, payload):
     if inp.get('invalid'):
         return bool(oracle_invalid(method, lanes, inp['invalid']))
     if (inp.get('params') or {}).get('scalar'):
-        lane = lanes[0]
-        S, V = real_chand_scalar(lane, None, None, None), real_chand([lane], None, None, None)
-        return not (S['st'] == V['st'] == 'ok' and abs(S['res'] - float(V['res'][0])) <= 2 * prop_tol('chandrupatla', lane))
+        st = inp['params']['scalar']
+        return bool(oracle_scalar(lanes[0], st if st in SCALAR_TYPES else 'pyfloat'))
     params = {k: v for k, v in (inp.get('params') or {}).items()}
-    fails, R = oracle_case(method, lanes, params)
-    if not fails:
-        fails = oracle_lanes(method, lanes, params, R, ctx.rng('replay'), 40)
+    fails, R = oracle_dtype(method, lanes, params, ctx.rng('replay'), 40)
     return any(c == cls for c, _, _ in fails) or bool(fails)
